@@ -24,7 +24,6 @@ import (
 
 type c07Conn struct {
 	id    int
-	nComp int // compressed messages sent to this connection so far
 	lc    *libConn
 	mode  c03Mode
 	alive bool // usable for reads
@@ -108,17 +107,19 @@ func (s *c07State) openConn(t fataler, mode c03Mode) *c07Conn {
 	return c
 }
 
+// c07FinalBlock: whether a compressed message with this payload is sent as a stream ending in a final block.
+func c07FinalBlock(payload []byte) bool { return len(payload)%3 == 2 }
+
 // sendMsg makes the peer of c send one complete message; upTo < 0 sends all fragments.
 func (c *c07Conn) frames(payload []byte, compress bool, nfrag int, text bool) []ref.Frame {
 	raw := payload
 	comp := compress && c.lc.Agreed.Deflate && !c.noComp
 	if comp {
-		// every third compressed message of a connection ends its DEFLATE stream with a final block
-		// (RFC 7692 section 7.2.3.4, what zlib-based senders emit): the receiver's flate reader stops before
-		// the end of the message, which is a path of its own through the pooling of readers
-		c.nComp++
+		// a third of the compressed messages (those whose length is 2 mod 3) end their DEFLATE stream with a
+		// final block (RFC 7692 section 7.2.3.4, what zlib-based senders emit): the receiver's flate reader stops
+		// before the end of the message, which is a path of its own through the pooling of readers
 		v := ref.DVSync
-		if c.nComp%3 == 2 {
+		if c07FinalBlock(payload) {
 			v = ref.DVBFinal
 		}
 		raw = c.def.Message(payload, v)
@@ -452,7 +453,9 @@ func TestC07(t *testing.T) {
 						// a compressed single-frame message of this size has been taken in completely by the
 						// library's buffers when the first byte comes out (otherwise the rest of the frame
 						// would be taken for frame headers: the documented user error)
-						return c.alive && c.cur != nil && c.curComp && c.curOff > 0 && c.curFrags == 1 && len(c.curWant) <= 3000 && len(c.pending) == 0
+						// (a stream that ends in a final block is followed by one more byte, which the flate reader
+						// has NOT taken in at that point: abandoning such a message is the documented user error again)
+						return c.alive && c.cur != nil && c.curComp && !c07FinalBlock(c.curWant) && c.curOff > 0 && c.curFrags == 1 && len(c.curWant) <= 3000 && len(c.pending) == 0
 					})
 					if c == nil {
 						return
